@@ -31,11 +31,13 @@ func init() {
 
 func TestC05_AfterComponent(t *testing.T) {
 	c := harness.New(t, "C05", "after-component",
-		"pages of a template directory in which a component use without slots - @component(\"c\"), @component(\"c\", {}), @component(\"c\", {a: 1}) - is followed by every text run of <= 2 pieces from {space, LF, TAB, CRLF, NBSP, U+3000, U+2003, U+0085, FF, VT, a letter} and then by each of {a {{ }} block, an @if block, a comment, another use, plain text, the end of the file}; the component file has a placeholder or none. Exhaustive. Expected: text before + the component's rendering + the run byte for byte + the rendering of what follows. Non-trivial: a run of white space only. Distinct by construction.")
+		"pages of a template directory in which a component use without slots - @component(\"c\"), @component(\"c\", {}), @component(\"c\", {a: 1}) - (and, where the component file has a placeholder, a use that passes a slot body) is followed by every text run of <= 2 pieces from {space, LF, TAB, CRLF, NBSP, U+3000, U+2003, U+0085, FF, VT, a letter} and then by each of {a {{ }} block, an @if block, a comment, another use, plain text, the end of the file}; the component file has a placeholder or none. Exhaustive. Expected: text before + the component's rendering + the run byte for byte + the rendering of what follows. Non-trivial: a run of white space only. Distinct by construction.")
 	defer c.Finish()
 	pieces := []string{"", " ", "\n", "\t", "\r\n", " ", "　", " ", "\u0085", "\f", "\v", "x"}
 	followers := []struct{ src, out string }{{"{{ 1 + 1 }}", "2"}, {"@if(true)y@end", "y"}, {"{{-- note --}}", ""}, {"@component(\"c\")", "<c>"}, {"tail", "tail"}, {"", ""}}
 	uses := []string{`@component("c")`, `@component("c", {})`, `@component("c", {a: 1})`, `@component( "c" )`}
+	// with a placeholder in the component file: uses that pass a slot body (text after their closing @end is text too)
+	slotted := []string{"@component(\"c\")@slot[s]@end@end", "@component(\"c\", {a: 1})\n@slot[s]@end\n@end", "@component(\"c\")\n  @slot[s]@end @end"}
 	idx := 0
 	for ci, comp := range []string{"<c>", "<c>@slot"} {
 		for _, p1 := range pieces {
@@ -49,9 +51,12 @@ func TestC05_AfterComponent(t *testing.T) {
 					if !harness.Mine(idx) {
 						continue
 					}
-					use := uses[idx%len(uses)]
+					use, compOut, follOut := uses[idx%len(uses)], "<c>", f.out
+					if ci == 1 && idx%2 == 0 {
+						use, compOut = slotted[idx/2%len(slotted)], "<c>[s]"
+					}
 					cs := treeCase{Files: map[string]string{"c": comp, "page": "A-" + use + run + f.src}, Dir: "t", Ext: ".tw", Page: "page",
-						Want: want{St: "ok", Kind: "text", S: "A-<c>" + run + f.out}, Note: fmt.Sprintf("component %d, follower %d", ci, fi)}
+						Want: want{St: "ok", Kind: "text", S: "A-" + compOut + run + follOut}, Note: fmt.Sprintf("component %d, follower %d", ci, fi)}
 					ws := true
 					for _, r := range run {
 						ws = ws && r != 'x'
